@@ -276,6 +276,25 @@ def rule_R07(ctx):
 
     def arms(bb):
         return {t[0] for t in se_vf.at(bb)}
+    # helpers called only from the statement evaluator inherit the arm(s) of
+    # their call sites (e.g. a while arm extracted into its own function)
+    helper_ctx = {}
+    for g in prog.hand_fns():
+        if g is se or g.is_closure or g.from_expansion:
+            continue
+        cs = prog.callers_of(g.path)
+        if cs and all(c.fn is se for c in cs):
+            a = set()
+            for c in cs:
+                a |= arms(c.bb)
+            if a and len(a) <= 2:
+                helper_ctx[g.path] = a
+    seq_fns = {c.fn.root_fn().path for c in prog.callers_of(se.path) if c.fn.in_any_loop(c.bb)}
+
+    def ctx_arms(f, bb):
+        if f is se:
+            return arms(bb)
+        return helper_ctx.get(f.root_fn().path, set())
     n_sources = 0
     call_boundaries = 0
     prog_boundaries = 0
@@ -302,10 +321,10 @@ def rule_R07(ctx):
                 # forwarded: must be returned as is
                 fw_ok = any(kd.get("adt") == "std::result::Result" and kd["variant"] == "Ok"
                             for (_, _, kd) in u.forwards) or u.passed
-                if f is se:
+                if f is se or f.root_fn().path in helper_ctx:
                     a = set()
                     for (bb, _, _) in u.forwards:
-                        a |= arms(bb)
+                        a |= ctx_arms(f, bb)
                     r3.inst("%s [%s]: forwarded unchanged" % (f.path, ",".join(sorted(a))))
                     if a & {"While", "For"}:
                         r2.fail("%s | loop-arm forwards escape arms=%s" % (f.path, ",".join(sorted(a))),
@@ -324,8 +343,8 @@ def rule_R07(ctx):
                 tab, loop = table_of(f, u, sbb)
                 desc = "%s: table %s" % (f.path, fmt(tab))
                 flat = {k: v for k, v in tab.items()}
-                if f is se:
-                    a = arms(sbb)
+                if f is se or f.root_fn().path in helper_ctx:
+                    a = ctx_arms(f, sbb)
                     if a and a <= {"While", "For"}:
                         r2.inst(desc + " [%s]" % ",".join(sorted(a)))
                         for v in ESC_VARIANTS:
@@ -375,7 +394,7 @@ def rule_R07(ctx):
                     prog_boundaries += 1
                     r5.inst(desc)
                     r5.ok(4)
-                elif loop is not None:
+                elif loop is not None and f.root_fn().path in seq_fns:
                     seq_tables += 1
                     r3.inst(desc + " [sequence]")
                     for v in ESC_VARIANTS:
@@ -403,6 +422,11 @@ def rule_R07(ctx):
         for k in loops_in:
             if a == {k}:
                 loops_in[k] += 1
+    for gp, a in helper_ctx.items():
+        if prog.fns[gp].natural_loops():
+            for k in loops_in:
+                if a == {k}:
+                    loops_in[k] += 1
     for k, n in loops_in.items():
         if n < 1:
             r2.fail("%s | no loop in arm=%s" % (se.path, k),
